@@ -1,36 +1,168 @@
-//! C03 probe (temporary)
+//! C03 harness: typed program generator over the core fragment, real parser in the loop, real render.
+//!
+//! usage: c03 gen <quick|thorough> [n]  — generate programs; one line per case:
+//!            <id>\t<ctx sexp>\t<prog sexp>\t<result>\t<source hex>\t<stats>
+//!        c03 batch                     — stdin lines `<id>\t<ctx sexp>\t<prog sexp>` -> same case lines
+//!                                        (replay, shrinking, corpus)
+//!        c03 src <source> [ctx sexp]   — render a hand-written source, dumping the parsed AST as sexp
+//!
+//! result: `ok:<hex utf-8 output>` | `err:<ErrorKind>` | `panic` | `parse-mismatch:…` | `parse-error:…`
+//! Strings inside s-expressions are hex-encoded UTF-8 (`-` = empty); names are bare atoms.
+//! The AST handed to the Lean driver is the one dumped from the REAL parser (serde JSON ->
+//! `s_from`), and it is asserted equal to the generated AST, so `unparse` and the parser are in
+//! the loop.
 use minijinja::machinery::{parse, WhitespaceConfig};
 use minijinja::syntax::SyntaxConfig;
 use minijinja::{Environment, Value};
+use mjh::*;
+use serde_json::Value as J;
+use std::io::Write;
 
-fn conv(j: &serde_json::Value) -> Value {
-    match j {
-        serde_json::Value::Null => Value::from(()),
-        serde_json::Value::Bool(b) => Value::from(*b),
-        serde_json::Value::Number(n) => Value::from(n.as_i64().unwrap()),
-        serde_json::Value::String(s) => Value::from(s.as_str()),
-        serde_json::Value::Array(a) => Value::from(a.iter().map(conv).collect::<Vec<_>>()),
-        serde_json::Value::Object(o) => Value::from_pairs(o.iter().map(|(k, v)| (k.clone(), conv(v)))),
+// ------------------------------------------------------------------------------------------ AST
+#[derive(Clone, Debug, PartialEq)]
+pub enum Lit { None, Bool(bool), Int(i64), Str(String) }
+
+#[derive(Clone, Debug, PartialEq)]
+pub enum Tgt { Var(String), Tuple(Vec<Tgt>) }
+
+pub type Args = Vec<(Option<String>, E)>;
+
+#[derive(Clone, Debug, PartialEq)]
+pub enum E {
+    Const(Lit),
+    Var(String),
+    Not(Box<E>),
+    Neg(Box<E>),
+    Bin(&'static str, Box<E>, Box<E>),
+    Cmp(Box<E>, Vec<(&'static str, E)>),
+    If(Box<E>, Box<E>, Option<Box<E>>),
+    Filter(String, Box<E>, Args),
+    Test(String, Box<E>, Args),
+    Attr(Box<E>, String),
+    Item(Box<E>, Box<E>),
+    Call(Box<E>, Args),
+    List(Vec<E>),
+    Map(Vec<(E, E)>),
+}
+
+pub type FilterApp = (String, Args);
+
+#[derive(Clone, Debug, PartialEq)]
+pub enum S {
+    Text(String),
+    Emit(E),
+    If(E, Vec<S>, Vec<S>),
+    For(Tgt, E, Option<E>, Vec<S>, Vec<S>),
+    Set(Tgt, E),
+    SetBlock(String, Vec<FilterApp>, Vec<S>),
+    With(Vec<(Tgt, E)>, Vec<S>),
+    FilterBlock(Vec<FilterApp>, Vec<S>),
+    Macro(String, Vec<String>, Vec<E>, Vec<S>),
+    CallBlock(E, Args, Vec<String>, Vec<E>, Vec<S>),
+    Break,
+    Continue,
+}
+
+#[derive(Clone, Debug, PartialEq)]
+pub enum CV { None, Bool(bool), Int(i64), Str(String), List(Vec<CV>), Map(Vec<(String, CV)>) }
+
+pub type Ctx = Vec<(String, CV)>;
+
+pub const BINOPS: [(&str, &str, &str); 15] = [
+    ("add", "+", "Add"), ("sub", "-", "Sub"), ("mul", "*", "Mul"), ("fdiv", "//", "FloorDiv"),
+    ("rem", "%", "Rem"), ("cat", "~", "Concat"), ("eq", "==", "Eq"), ("ne", "!=", "Ne"),
+    ("lt", "<", "Lt"), ("le", "<=", "Lte"), ("gt", ">", "Gt"), ("ge", ">=", "Gte"),
+    ("in", "in", "In"), ("and", "and", "ScAnd"), ("or", "or", "ScOr"),
+];
+pub const CMPOPS: [(&str, &str, &str); 8] = [
+    ("eq", "==", "Eq"), ("ne", "!=", "Ne"), ("lt", "<", "Lt"), ("le", "<=", "Lte"),
+    ("gt", ">", "Gt"), ("ge", ">=", "Gte"), ("in", "in", "In"), ("notin", "not in", "NotIn"),
+];
+fn binop_src(op: &str) -> &'static str { BINOPS.iter().find(|x| x.0 == op).unwrap().1 }
+fn cmpop_src(op: &str) -> &'static str { CMPOPS.iter().find(|x| x.0 == op).unwrap().1 }
+
+fn hx(s: &str) -> String { if s.is_empty() { "-".into() } else { hex(s.as_bytes()) } }
+
+include!("c03_sexp.inc");
+include!("c03_parse.inc");
+include!("c03_gen.inc");
+
+// ------------------------------------------------------------------------------------------ run
+fn cv_value(v: &CV) -> Value {
+    match v {
+        CV::None => Value::from(()),
+        CV::Bool(b) => Value::from(*b),
+        CV::Int(i) => Value::from(*i),
+        CV::Str(s) => Value::from(s.as_str()),
+        CV::List(xs) => Value::from(xs.iter().map(cv_value).collect::<Vec<_>>()),
+        CV::Map(kvs) => Value::from_pairs(kvs.iter().map(|(k, v)| (k.clone(), cv_value(v)))),
     }
 }
 
-fn main() {
-    let args: Vec<String> = std::env::args().collect();
-    match args[1].as_str() {
-        "ast" => {
-            let ast = parse(&args[2], "t", SyntaxConfig::default(), WhitespaceConfig::default()).unwrap();
-            println!("{}", serde_json::to_string(&ast).unwrap());
+fn render_real(src: &str, ctx: &Ctx) -> String {
+    let r = guarded(|| {
+        let mut env = Environment::new();
+        if let Err(e) = env.add_template("t", src) { return format!("err:{}", error_kind_name(&e)); }
+        let t = env.get_template("t").unwrap();
+        let root = Value::from_pairs(ctx.iter().map(|(k, v)| (k.clone(), cv_value(v))));
+        match t.render(root) {
+            Ok(s) => format!("ok:{}", hx(&s)),
+            Err(e) => format!("err:{}", error_kind_name(&e)),
         }
-        "render" => {
-            let mut env = Environment::new();
-            env.add_template("t", &args[2]).unwrap();
-            let ctx: serde_json::Value = serde_json::from_str(args.get(3).map(|s| s.as_str()).unwrap_or("{}")).unwrap();
-            let t = env.get_template("t").unwrap();
-            match t.render(conv(&ctx)) {
-                Ok(s) => println!("OK [{}]", s),
-                Err(e) => println!("ERR {:?} {}", e.kind(), e),
+    });
+    r.unwrap_or_else(|_| "panic".to_string())
+}
+
+/// the case line: AST from the REAL parser (compared with `expected` when given)
+fn run_case(id: &str, ctx: &Ctx, src: &str, expected: Option<&[S]>, stats: &str) -> String {
+    let clean = |s: String| s.replace('\t', " ").replace('\n', " ");
+    let (prog, result) = match real_ast(src) {
+        Err(e) => (expected.map(|p| p.to_vec()).unwrap_or_default(),
+                   if e.starts_with("parse-error") { clean(e) } else { clean(format!("parse-mismatch:{}", e)) }),
+        Ok(p) => {
+            if expected.map_or(false, |x| x != &p[..]) { (p, "parse-mismatch:ast differs from the generated one".to_string()) }
+            else { let r = render_real(src, ctx); (p, r) }
+        }
+    };
+    format!("{}\t{}\t{}\t{}\t{}\t{}", id, ctx_sexp(ctx), prog_sexp(&prog), result, hx(src), stats)
+}
+
+fn main() {
+    quiet_panics();
+    let args: Vec<String> = std::env::args().collect();
+    let out = std::io::stdout();
+    let mut out = std::io::BufWriter::new(out.lock());
+    match args.get(1).map(|s| s.as_str()) {
+        Some("gen") => {
+            let tier = args.get(2).map(|s| s.as_str()).unwrap_or("quick");
+            let n: usize = args.get(3).and_then(|s| s.parse().ok()).unwrap_or(if tier == "thorough" { 100_000 } else { 3_000 });
+            let mut rng = Rng::new(seed_from_env());
+            for i in 0..n {
+                let (ctx, prog, stats) = gen_case(&mut rng);
+                let src = b_src(&prog);
+                writeln!(out, "{}", run_case(&format!("g{}", i), &ctx, &src, Some(&prog), &stats)).unwrap();
             }
         }
-        _ => {}
+        Some("batch") => {
+            let mut line = String::new();
+            while std::io::stdin().read_line(&mut line).unwrap() > 0 {
+                let f: Vec<&str> = line.trim_end_matches('\n').split('\t').collect();
+                if f.len() >= 3 {
+                    match (parse_ctx(f[1]), parse_prog(f[2])) {
+                        (Some(ctx), Some(prog)) => {
+                            let src = b_src(&prog);
+                            writeln!(out, "{}", run_case(f[0], &ctx, &src, Some(&prog), "-")).unwrap();
+                        }
+                        _ => writeln!(out, "{}\t{}\t{}\tbad-case\t-\t-", f[0], f[1], f[2]).unwrap(),
+                    }
+                }
+                line.clear();
+            }
+        }
+        Some("src") => {
+            let ctx = args.get(3).map(|s| parse_ctx(s).expect("ctx sexp")).unwrap_or_default();
+            writeln!(out, "{}", run_case("src", &ctx, &args[2], None, "-")).unwrap();
+        }
+        _ => eprintln!("usage: c03 gen <quick|thorough> [n] | batch | src <source> [ctx]"),
     }
 }
